@@ -871,6 +871,19 @@ func (c Cmd) targetOptions() server.TargetOptions {
 	}
 }
 
+// errorPages resolves the marker "@custom503" to a directory holding a 503 page of the service's own.
+func (w *World) errorPages(p string) string {
+	if p != "@custom503" {
+		return p
+	}
+	d := filepath.Join(w.dir, "custom503")
+	if _, err := os.Stat(d); err != nil {
+		os.MkdirAll(d, 0o755)
+		os.WriteFile(filepath.Join(d, "503.html"), []byte("<html>CUSTOM503[{{ .Message }}]MOTSUC</html>"), 0o644)
+	}
+	return d
+}
+
 func (w *World) execCmd(cmd Cmd) {
 	actor := "c:" + cmd.ID
 	w.ctl.BindGoroutine(actor)
@@ -878,7 +891,7 @@ func (w *World) execCmd(cmd Cmd) {
 	call := KV{"c": cmd.ID, "kind": cmd.Kind, "svc": cmd.Svc, "targets": nonNil(cmd.Targets),
 		"dto": cmd.DeployTimeoutMs, "drto": cmd.DrainTimeoutMs, "max_pause": cmd.MaxPauseMs, "msg": cmd.Msg,
 		"hosts": nonNil(cmd.Hosts), "paths": nonNil(cmd.Paths), "pct": cmd.Pct, "allow": nonNil(cmd.Allow),
-		"hc_interval": dflt(cmd.HCIntervalMs, 1000), "hc_timeout": dflt(cmd.HCTimeoutMs, 500)}
+		"hc_interval": dflt(cmd.HCIntervalMs, 1000), "hc_timeout": dflt(cmd.HCTimeoutMs, 500), "pages503": cmd.ErrorPages == "@custom503"}
 	for k, v := range w.extra {
 		call[k] = v
 	}
@@ -898,7 +911,9 @@ func (w *World) execCmd(cmd Cmd) {
 		var err error
 		switch cmd.Kind {
 		case "deploy":
-			err = w.router.DeployService(cmd.Svc, cmd.Targets, cmd.serviceOptions(), cmd.targetOptions(), ms(cmd.DeployTimeoutMs), ms(cmd.DrainTimeoutMs))
+			so := cmd.serviceOptions()
+			so.ErrorPagePath = w.errorPages(so.ErrorPagePath)
+			err = w.router.DeployService(cmd.Svc, cmd.Targets, so, cmd.targetOptions(), ms(cmd.DeployTimeoutMs), ms(cmd.DrainTimeoutMs))
 		case "rollout_deploy":
 			err = w.router.SetRolloutTargets(cmd.Svc, cmd.Targets, ms(cmd.DeployTimeoutMs), ms(cmd.DrainTimeoutMs))
 		case "rollout_set":
